@@ -7,9 +7,14 @@ cd "$(dirname "$0")/.."
 rc=0
 ids=("$@"); [ ${#ids[@]} -eq 0 ] && ids=($(ls benign))
 for id in "${ids[@]}"; do
-  out=$(scripts/trymutant.sh benign/$id/patch.diff C01 C02 C03 C04 C05 C06 C07 C08 C09 C10 C11 C12 C13 C14 C15 C16 C17 C18 C19 C20 2>&1)
+  props="C01 C02 C03 C04 C05 C06 C07 C08 C09 C10 C11 C12 C13 C14 C15 C16 C17 C18 C19 C20"
+  # BENIGN_RELATED=1: only the checks of the properties whose code the change touches (anchor files of the property,
+  # widened by what its checks exercise; a change that adds a file counts for all) - for re-runs under time pressure
+  [ -n "$BENIGN_RELATED" ] && props=$(scripts/related_props.py benign/$id/patch.diff)
+  want=$(echo $props | wc -w)
+  out=$(scripts/trymutant.sh benign/$id/patch.diff $props 2>&1)
   bad=$(echo "$out" | grep -E "^C[0-9]+ exit=[^0]|DOES NOT|NOT PASSING|PATCH DOES NOT" | cut -c1-200)
   n=$(echo "$out" | grep -c "^C[0-9]* exit=0")
-  if [ -z "$bad" ] && [ "$n" -eq 20 ]; then echo "$id SILENT (20/20 checks exit 0)"; else echo "$id ALARM-OR-BROKEN ($n/20 exit 0)"; echo "$bad"; rc=1; fi
+  if [ -z "$bad" ] && [ "$n" -eq "$want" ]; then echo "$id SILENT ($n/$want checks exit 0: $props)"; else echo "$id ALARM-OR-BROKEN ($n/$want exit 0)"; echo "$bad"; rc=1; fi
 done
 exit $rc
